@@ -1023,9 +1023,16 @@ def fresh_request_buffer(ctx):
     """DataStream._update_t: every request binds self.v to a fresh zero array.  MultiAntennaArray keeps VIEWS of the background
     stream's buffer (the trailing delay samples) for the next request, and get_samples hands the buffer out: re-using it in place
     would overwrite the samples a later request still needs (shared by C02-D7 and C15-D2)."""
-    ut = ctx.func('voltage.data_stream.DataStream._update_t')
-    ru, Iu = ctx.run(ut, expand=False)
-    vst = [e for e in Iu.events if e.kind == 'store' and e.data.get('target') == 'attr' and e.data.get('name') == 'v']
+    shorts = {f.short for f in ctx.prog.functions.values()}
+    if 'voltage.data_stream.DataStream._update_t' in shorts:
+        ut = ctx.func('voltage.data_stream.DataStream._update_t')
+        ru, Iu = ctx.run(ut, expand=False)
+        vst = [e for e in Iu.events if e.kind == 'store' and e.data.get('target') == 'attr' and e.data.get('name') == 'v']
+    else:
+        # (helper folded into get_samples: the buffer binding is the first store of self.v in a request)
+        ut = ctx.func('voltage.data_stream.DataStream.get_samples')
+        ru, Iu = ctx.run(ut, expand=False, heap={'noise_sources': '[]', 'signal_sources': '[]'})
+        vst = [e for e in Iu.events if e.kind == 'store' and e.data.get('target') == 'attr' and e.data.get('name') == 'v'][:1]
     okv = len(vst) == 1 and not vst[0].pc and vst[0].data['value'].key == ctx.spec(ut, 'xp.zeros(num_samples)').key
     inplace = [e for e in Iu.events if (e.kind == 'call' and e.data.get('name') in ('.fill', '.put', 'copyto', 'numpy.copyto'))
                or (e.kind == 'store' and e.data.get('target') == 'sub' and '.v' in ast.unparse(e.data['base_node']))]
